@@ -201,7 +201,7 @@ def run(rep):
     tools = proc.Tools(sc)
     pcases = conffam.int_process_cases(rep.tier)
     with cf.ThreadPoolExecutor(vlib.NCPU) as ex:
-        pres = list(ex.map(lambda c_: conffam.judge_int_process(tools, c_), pcases))
+        pres = list(ex.map(lambda c_: conffam.judge_int_process(tools, c_, rep.tier), pcases))
     pbad = [r for r in pres if r['problems']]
     for r in conffam.pick(pbad, key=lambda it: it['kind'].split(':')[0] + re.sub(r'^.*?\]: |^.*?: ', '', it['problems'][0])[:30]):
         rep.finding('unlisted', {'kind': r['kind'], 'config': r['config'], 'expected': r['expected'], 'what': r['problems'][:4],
@@ -233,5 +233,13 @@ def run(rep):
 
 
 def replay(rep, path):
+    import json
     import msgcommon as mc
+    j = json.load(open(path))
+    if str(j.get('level', '')).startswith('real binary'):
+        sc = vlib.Scratch()
+        vlib.lean_gate(rep, 'C15', sc, [])
+        conffam.replay(j, sc)
+        rep.coverage.update({'evaluations': 1, 'distinct_nontrivial': 1})
+        return
     mc.generic_replay(rep, path, 'C15', {'tparse'}, {}, included=ec.INCLUDED, hname='h_expr')
